@@ -64,6 +64,7 @@ type link struct {
 	txMu     sync.Mutex // guards the sender-side state when several tasks send on one link
 	hbSent   []sentItem
 	keptAlive bool
+	rxPaused  bool
 	apCount   int
 	nodeGone  bool
 	closeSeen bool
@@ -235,6 +236,9 @@ func (l *link) rxLoop() {
 	for {
 		var n int
 		var err error
+		for l.rxIsPaused() {
+			dsim.Sleep(200 * time.Millisecond) // this peer is not draining what the node writes
+		}
 		switch {
 		case l.conn != nil:
 			n, err = l.conn.Read(buf)
@@ -270,6 +274,18 @@ func (l *link) gotData(b []byte) {
 		cb()
 	}
 	dsim.Record("peer-rx", fmt.Sprintf("%s %x", l.name, b), nil, int64(l.id), int64(len(b)))
+}
+
+func (l *link) rxIsPaused() bool {
+	l.e.mu.Lock()
+	defer l.e.mu.Unlock()
+	return l.rxPaused
+}
+
+func (l *link) pauseRx(p bool) {
+	l.e.mu.Lock()
+	l.rxPaused = p
+	l.e.mu.Unlock()
 }
 
 // rxEnded tells whether the peer's receive side has seen the end of the connection.
